@@ -9,7 +9,7 @@ RULE = ("same generated cases as C01 (joint degree sequence x motif configuratio
         "distinct = distinct canonical JSON")
 ASSUMPTIONS = ["a bare-edge callback (returning one (u,v) tuple) is paired with a naming callback returning a bare "
                "string, the convention of the suite's own custom-motif fixture; only the custom generator accepts it"]
-BUDGET = {"quick": (16, 300), "thorough": (16, 5000)}
+BUDGET = {"quick": (16, 300), "thorough": (16, 15000)}
 
 
 def strategy(tier):
